@@ -11,6 +11,10 @@ FIXED_TYPES = [
     ["cont", [["vec", ["bool"], 33], ["bitvec", 3], ["union", True, [["bytevec", 4]]]]],
     ["union", False, [["union", False, [["uint", 1]]]]],
     ["list", ["uint", 32], 3], ["vec", ["uint", 16], 3], ["list", ["bool"], 300],
+    ["cont", [["uint", 1], ["list", ["bytelist", 4], 4]]], ["list", ["list", ["bytelist", 4], 4], 2],
+    ["vec", ["list", ["bitlist", 9], 3], 2], ["cont", [["list", ["list", ["uint", 2], 3], 3], ["bitlist", 8]]],
+    ["vec", ["cont", [["uint", 1], ["uint", 2]]], 3], ["vec", ["list", ["uint", 1], 4], 5], ["vec", ["union", False, [["uint", 2]]], 7],
+    ["cont", [["vec", ["bytelist", 5], 3], ["uint", 8]]], ["vec", ["bitlist", 5], 9], ["vec", ["vec", ["uint", 8], 5], 3],
 ]
 
 
@@ -20,13 +24,14 @@ def gen_tv(ctx, n, big_ok=True):
         yield {"t": t, "v": zero_value(t)}
         for _ in range(2):
             yield {"t": t, "v": gen_value(rng, t)}
+        yield {"t": t, "v": gen_full_value(rng, t)}
     made = 0
     while made < n:
         t = gen_type(rng, rng.choice([0, 1, 1, 2, 2, 3]), big_ok=big_ok)
         if type_size(t) > 14:
             continue
         for _ in range(rng.choice([1, 2])):
-            yield {"t": t, "v": gen_value(rng, t)}
+            yield {"t": t, "v": gen_value(rng, t) if rng.random() < 0.85 else gen_full_value(rng, t)}
             made += 1
 
 
